@@ -83,6 +83,8 @@ def cases(tier, seed):
         for op in ("translate", "rotate", "scale"):
             out.append(Case(f"affine:{op}:{sh}", kind="affine", op=op, shape=sh, seed=seed))
     out.append(Case("setops", kind="setops", probes=b["probes"], seed=seed))
+    for op in ("translate", "rotate", "scale"):
+        out.append(Case(f"membership-after-inplace:{op}", kind="stale", op=op, seed=seed))
     for nh in b["holes"]:
         out.append(Case(f"device:holes={nh}", kind="device", holes=nh, probes=b["probes"], seed=seed))
     for op in ("translate", "rotate", "scale"):
@@ -239,6 +241,32 @@ def body_affine(H, case):
     H.prove("result is stored counter-clockwise", a1 > 0, timeout=60)
     H.prove_eq("area of the result = |fx fy| x area of the original (1 for rotations and translations)", a1, factor * a0, scale=1.0, timeout=60)
     H.prove_eq("area property of the result agrees", q.area, factor * a0, scale=1.0, timeout=60)
+
+
+# ---- membership follows an in-place transform ---------------------------------------------------------------
+def body_stale(H, case):
+    """a polygon that was asked about membership and then transformed *in place* answers for its new vertices
+    (a probe strictly inside the original box, far outside the transformed one)"""
+    p = _box(H, "P", 0.0, 0.0, 2.0, 1.0)
+    Q = H.array2([[H.real("qx", lo=0.8, hi=1.2), H.real("qy", lo=0.4, hi=0.6)]])
+    before = p.contains_points(Q)
+    cell_facts(H, "P", K.at(before, 0), 0, True)
+    if case.op == "translate":
+        r = p.translate(10.0, 5.0, inplace=True)
+    elif case.op == "rotate":
+        r = p.rotate(H.real("degrees", lo=170.0, hi=190.0), origin=(10.0, 10.0), inplace=True)
+    else:
+        r = p.scale(3.0, 3.0, origin=(-10.0, -10.0), inplace=True)
+    H.prove("the in-place transform returns the polygon itself", r is p)
+    import tdgl
+
+    fresh = tdgl.Polygon("fresh", points=p.points)
+    cell_facts(H, "transformed P (built afresh from the stored vertices)", K.at(fresh.contains_points(Q), 0), 0, False)
+    after = K.at(p.contains_points(Q), 0)
+    if H.mode == "sym":
+        H.prove("after the in-place transform the probe is outside: membership is answered for the stored vertices", after == False)  # noqa: E712
+    else:
+        H.prove("after the in-place transform the probe is outside: membership is answered for the stored vertices", not bool(after))
 
 
 # ---- set operations ------------------------------------------------------------------------------------------------
